@@ -593,6 +593,33 @@ func runCheck(o *Options) (int, *Evidence) {
 				errs[i] = "UNSUPPORTED " + errs[i]
 			}
 		}
+		// the contracts of these functions no longer fit the code (a field or local they talk
+		// about is gone): nothing is proved and nothing refuted. A run of the real code that
+		// breaks the property statement settles it: the search templates are asked, and only a
+		// failure whose message names this property counts.
+		for _, x := range execs {
+			if len(x.errs) == 0 || x.spec == nil || !funcHasTag(x.spec, o.prop) {
+				continue
+			}
+			ob := &Obligation{Name: x.fn.name() + "#contract-mismatch", Kind: "contract", Func: x.fn.name(), Tags: []string{o.prop}, Status: "failed-unknown", Solver: map[string]int{}}
+			ob.Queries = []*job{{q: &Query{Ob: ob.Name, Kind: "contract", Func: ob.Func, Tags: ob.Tags, Goal: x.errs[0]}, res: Result{Status: "unknown", Solver: "none", Output: strings.Join(x.errs, "\n")}}}
+			rp := writeReplay(o, ob)
+			if !rp.reproduced {
+				continue
+			}
+			if namesProperty(rp.output, o.prop) {
+				fmt.Printf("VIOLATION property=%s replay=%s\n", o.prop, rp.path)
+				for _, e := range errs {
+					fmt.Println("NOTE", e)
+				}
+				ev.Violations = 1
+				if ev.Coverage == nil {
+					ev.Coverage = map[string]interface{}{}
+				}
+				ev.Coverage["explanation"] = "the contracts no longer fit the code (" + errs[0] + "); a small-scope search over runs of the real code found one on which the statement of the property fails"
+				return 1, ev
+			}
+		}
 		return undecided(ev, errs...)
 	}
 	prelude := w.prelude() + preludeExtra
@@ -1032,8 +1059,7 @@ func runCheck(o *Options) (int, *Evidence) {
 			if !rp.reproduced {
 				continue
 			}
-			b, _ := os.ReadFile(rp.path)
-			if strings.Contains(string(b), o.prop+":") || strings.Contains(string(b), o.prop+"/") || strings.Contains(string(b), "/"+o.prop) {
+			if namesProperty(rp.output, o.prop) {
 				violations = append(violations, fmt.Sprintf("VIOLATION property=%s replay=%s", o.prop, rp.path))
 				ev.Violations++
 				break
